@@ -74,12 +74,15 @@ class RegistryModel:
                 try:
                     names = split_names(indices)
                     sp_list = list(spins) if spins is not None else [""] * len(names)
+                except Exception:  # noqa: BLE001
+                    names, sp_list = None, None
+                try:  # white-box probe only (reach statistics)
                     pooled_before = [
                         (n, s) for n, s in zip(names, sp_list)
                         if valid_name(n) and s in SPINS and
                         n in ind._generic_indices[space_of(n)][s]]
-                except Exception:
-                    names, sp_list = None, None
+                except Exception:  # noqa: BLE001
+                    pooled_before = None
                 try:
                     ret = real_get(indices, spins)
                 except BaseException as exc:
